@@ -51,6 +51,9 @@ def run(tier="quick", seed=1, replay=None):
                 n = len(v["chunks"])
                 for tools in (True, False):
                     cases.append(dict(atoms=v["atoms"], chunks=v["chunks"], tools=tools, fail=-1))
+                if i % 3 == 0:      # the same output ending at the prediction limit instead of a stop
+                    cases.append(dict(atoms=v["atoms"], chunks=v["chunks"], tools=True, fail=-1, reason="length"))
+                    cases.append(dict(atoms=v["atoms"], chunks=v["chunks"], tools=False, fail=-1, reason="length"))
                 if i % (7 if quick else 2) == 0:      # failure points: after k chunks
                     for k in range(0, n + 1):
                         cases.append(dict(atoms=v["atoms"], chunks=v["chunks"], tools=bool(k % 2), fail=k))
